@@ -28,7 +28,7 @@ def cdel(d):
 
 
 ALL = ([("Pump",), ("LocOutcome", True, False), ("LocOutcome", False, False), ("LocOutcome", False, True)] +
-       [("ConnOutcome", o) for o in OUT] + [("UserReset",), ("SetSpaInfo",)] + [("Ext", e) for e in lifecycle.EXT])
+       [("ConnOutcome", o) for o in OUT] + [("UserReset",), ("SetSpaInfo",), ("NotFoundWake",)] + [("Ext", e) for e in lifecycle.EXT])
 
 
 def gen_walk(rng, n):
@@ -40,8 +40,10 @@ def gen_walk(rng, n):
             out.append(("ConnOutcome", rng.choice(["next"] * 8 + ["retry", "cannot0", "cannot1", "cannot2", "raise"])))
         elif r < 0.45:
             out.append(("LocOutcome", rng.random() < 0.85, rng.random() < 0.05))
-        elif r < 0.55:
+        elif r < 0.52:
             out.append(("Pump",))
+        elif r < 0.55:
+            out.append(("NotFoundWake",))
         elif r < 0.63:
             out.append(("UserReset",))
         elif r < 0.66:
@@ -65,8 +67,9 @@ def run(ctx):
     # exhaustive short sequences after a prefix that reaches an interesting state
     to_connected = [("Pump",), ("LocOutcome", True, False), ("LocOutcome", True, False)] + [("ConnOutcome", "next")] * 5
     to_connecting = [("Pump",), ("LocOutcome", True, False), ("LocOutcome", True, False), ("ConnOutcome", "next"), ("ConnOutcome", "next")]
+    to_not_found = [("Pump",), ("LocOutcome", True, False), ("LocOutcome", False, False)]
     depth = 3 if ctx.thorough else 2
-    for prefix in ([], to_connecting, to_connected):
+    for prefix in ([], to_connecting, to_connected, to_not_found):
         for combo in itertools.product(ALL, repeat=depth):
             traces.append((True, prefix + list(combo)))
     exprs, meta = [], []
